@@ -119,6 +119,7 @@ def main(argv=None):
 
 def _run(mod, modname, prop, args, seed):
     t0 = time.time()
+    os.environ.setdefault("VF_SHRINK_SECONDS", "45" if args.tier == "quick" else "240")
     specs = mod.shards(args.tier, seed)
     for s in specs:
         s.setdefault("tier", args.tier)
